@@ -543,6 +543,18 @@ fn kv(ver: u8) -> KeyVersion {
     KeyVersion::from(ver)
 }
 
+/// the password through one of the conversions the API offers, in rotation: the octets are the
+/// password, whichever way they were handed over (`&[u8]`, `&str`, `String` when they are UTF-8)
+fn mk_password(pw: &[u8]) -> Password {
+    static K: std::sync::atomic::AtomicUsize = std::sync::atomic::AtomicUsize::new(0);
+    let k = K.fetch_add(1, std::sync::atomic::Ordering::Relaxed);
+    match (std::str::from_utf8(pw), k % 3) {
+        (Ok(s), 1) => Password::from(s),
+        (Ok(s), 2) => Password::from(s.to_string()),
+        _ => Password::from(pw),
+    }
+}
+
 fn raw_of(p: &PlainSecretParams) -> Vec<u8> {
     let mut v = Vec::new();
     // version 6 form = to_writer_raw without the v3/v4 checksum
@@ -566,7 +578,7 @@ impl AnyKey {
     }
 
     fn lock(&mut self, pw: &[u8], p: S2kParams) -> Result<(), String> {
-        let pw = Password::from(pw);
+        let pw = mk_password(pw);
         match self {
             AnyKey::P(k) => k.set_password_with_s2k(&pw, p).map_err(|e| e.to_string()),
             AnyKey::S(k) => k.set_password_with_s2k(&pw, p).map_err(|e| e.to_string()),
@@ -574,7 +586,7 @@ impl AnyKey {
     }
 
     fn unlock_raw(&self, pw: &[u8]) -> Result<Vec<u8>, String> {
-        let pw = Password::from(pw);
+        let pw = mk_password(pw);
         let r = match self {
             AnyKey::P(k) => k.unlock(&pw, |_, plain| Ok(raw_of(plain))),
             AnyKey::S(k) => k.unlock(&pw, |_, plain| Ok(raw_of(plain))),
@@ -587,7 +599,7 @@ impl AnyKey {
     }
 
     fn remove_password(&mut self, pw: &[u8]) -> Result<(), String> {
-        let pw = Password::from(pw);
+        let pw = mk_password(pw);
         match self {
             AnyKey::P(k) => k.remove_password(&pw).map_err(|e| e.to_string()),
             AnyKey::S(k) => k.remove_password(&pw).map_err(|e| e.to_string()),
@@ -793,6 +805,11 @@ fn passwords(ctx: &mut Ctx) -> Vec<Vec<u8>> {
         vec![0xff, 0xfe, 0x00, 0x80, 0xc3, 0x28],
         long,
         "пароль-密码".as_bytes().to_vec(),
+        // (what a prompt or a file hands over: line ends, blanks — they are part of the password)
+        b"hunter2\r\n".to_vec(),
+        b"hunter2\n\n".to_vec(),
+        b" hunter2 \t".to_vec(),
+        b"\n".to_vec(),
         crate::gen::random_bytes(&mut ctx.rng, 17),
         // longer than the smallest iterated-S2K octet counts (1024, 1088): salt ‖ password is then
         // hashed once in full, so passwords that agree on a long prefix still differ
@@ -1480,7 +1497,64 @@ fn random_parse_cases(ctx: &mut Ctx, fixtures: &[KeyFix], n: usize) {
     }
 }
 
+/// keys locked by the key builder (`SecretKeyParamsBuilder::passphrase` / `SubkeyParamsBuilder::
+/// passphrase`): whatever passphrase was asked for — the empty one, ones ending in line ends — is the
+/// password of every component, and nothing else is (oracle only)
+fn builder_passphrase_cases(ctx: &mut Ctx) {
+    for ver in [4u8, 6] {
+        for pw in ["", "x", "hunter2\n", "hunter2\r\n", " ", "пароль"] {
+            let r = guarded(|| -> Result<Vec<u8>, String> {
+                let mut rng = rand_chacha::ChaCha8Rng::seed_from_u64(ctx.rng.gen());
+                let mut b = SecretKeyParamsBuilder::default();
+                b.version(kv(ver))
+                    .key_type(if ver == 6 { KeyType::Ed25519 } else { KeyType::Ed25519Legacy })
+                    .can_certify(true)
+                    .can_sign(true)
+                    .primary_user_id("c08 <c08@example.org>".into())
+                    .passphrase(Some(pw.to_string()))
+                    .s2k(Some(S2kParams::new_default(&mut rng, kv(ver))))
+                    .subkey(
+                        SubkeyParamsBuilder::default()
+                            .version(kv(ver))
+                            .key_type(if ver == 6 { KeyType::X25519 } else { KeyType::ECDH(ECCCurve::Curve25519Legacy) })
+                            .can_encrypt(pgp::composed::EncryptionCaps::All)
+                            .passphrase(Some(pw.to_string()))
+                            .build()
+                            .map_err(|e| e.to_string())?,
+                    );
+                let params = b.build().map_err(|e| e.to_string())?;
+                let key: SignedSecretKey = params.generate(&mut rng).map_err(|e| e.to_string())?;
+                key.to_bytes().map_err(|e| e.to_string())
+            });
+            let Ok(Ok(bytes)) = r else {
+                ctx.stat("builder_passphrase:cannot_build");
+                continue;
+            };
+            let input = format!("v{ver} passphrase={pw:?} tsk={}", hx(&bytes));
+            let site = "SecretKeyParamsBuilder::passphrase -> generate -> to_bytes -> from_bytes -> unlock";
+            let probe = |cand: &[u8]| -> Result<(bool, bool, bool, bool), String> {
+                let key = SignedSecretKey::from_bytes(&bytes[..]).map_err(|e| e.to_string())?;
+                let p = Password::from(cand);
+                let a = matches!(key.primary_key.unlock(&p, |_, _| Ok(())), Ok(Ok(())));
+                let b = matches!(key.secret_subkeys[0].key.unlock(&p, |_, _| Ok(())), Ok(Ok(())));
+                Ok((a, b, key.primary_key.secret_params().is_encrypted(), key.secret_subkeys[0].key.secret_params().is_encrypted()))
+            };
+            let right = guarded(|| probe(pw.as_bytes()));
+            ctx.oracle("lock_unlock_roundtrip", site, &input, matches!(right, Ok(Ok((true, true, true, true)))), &format!("(primary unlocks, subkey unlocks, primary encrypted, subkey encrypted) = {right:?}"));
+            for wrong in [format!("{pw}x"), pw.trim_end().to_string() + "?", "another".to_string(), pw.trim_end_matches(['\r', '\n']).to_string()] {
+                if wrong == pw {
+                    continue;
+                }
+                let w = guarded(|| probe(wrong.as_bytes()));
+                ctx.oracle("wrong_password_fails", site, &format!("{input} wrong={wrong:?}"), matches!(w, Ok(Ok((false, false, _, _)))), &format!("{w:?}"));
+            }
+            ctx.stat("builder_passphrase");
+        }
+    }
+}
+
 fn composed_cases(ctx: &mut Ctx) {
+    builder_passphrase_cases(ctx);
     // observe at: SignedSecretKey::from_bytes -> unlock (primary and subkey), v4 and v6
     for ver in [4u8, 6] {
         let pw: Vec<u8> = if ver == 4 { b"correct horse".to_vec() } else { vec![0xff, 0x00, 0xfe] };
